@@ -303,6 +303,9 @@ func evalC07(cs *c07Case) (sig, msg string, hit bool, judged bool) {
 		hit = true
 	}
 
+	exits := map[string]int{}
+	firstErr := ""
+	generated := c12IsGenerated(&c14File{Src: cs.File})
 	for _, mode := range c07Modes {
 		dir, cleanup := run.TempDir("c07-")
 		target := filepath.Join(dir, cs.name())
@@ -315,6 +318,13 @@ func evalC07(cs *c07Case) (sig, msg string, hit bool, judged bool) {
 		cleanup()
 		if r.StartErr != "" || r.TimedOut || r.Crashed() {
 			return "", "foreign:C08", hit, judged
+		}
+		if !(generated && strings.Contains(mode.Name, "skipgenerated")) {
+			exits[mode.Name] = r.Exit
+			// only failures of the rewrite itself (not of writing the file)
+			if se := string(r.Stderr); r.Exit != 0 && firstErr == "" && (strings.Contains(se, "reformat \"") || strings.Contains(se, "could not update \"") || strings.Contains(se, "failed to rewrite \"")) {
+				firstErr = mode.Name + ": " + trunc(strings.TrimSpace(string(r.Stderr)), 300)
+			}
 		}
 		stdout := string(r.Stdout)
 		if strings.Contains(mode.Name, "+v") {
@@ -379,6 +389,17 @@ func evalC07(cs *c07Case) (sig, msg string, hit bool, judged bool) {
 		// unchanged (that is not new content); anything else is an emission.
 		if strings.TrimSpace(stdout) != "" && !strings.HasPrefix(mode.Name, "inplace") && stdout != cs.File {
 			return "error-but-output-emitted:" + mode.Name, fmt.Sprintf("gopatch %s reports an error (%s) but still printed output for the file:\n%s\n%s", strings.Join(mode.Args, " "), trunc(strings.TrimSpace(string(r.Stderr)), 300), trunc(stdout, 1200), show()), hit, judged
+		}
+	}
+	// The same rewrite is printed in every mode: if it cannot be emitted in
+	// one (it would not parse, or the rewrite itself fails) the file must be
+	// reported, with a non-zero exit status, in all of them.
+	if firstErr != "" {
+		for _, mode := range c07Modes {
+			if e, ok := exits[mode.Name]; ok && e == 0 {
+				// (a mode that failed for another reason, e.g. while writing, has e != 0 and is fine)
+				return "error-not-reported:" + mode.Name, fmt.Sprintf("gopatch %s exits 0 and says nothing, yet the same patch and file fail in another mode (%s)\n%s", strings.Join(mode.Args, " "), firstErr, show()), hit, judged
+			}
 		}
 	}
 	return "", "", hit, judged
